@@ -483,6 +483,11 @@ var notCovered = map[string][]string{
 		"Check() reports 'type not found' iff a type reachable from the root is missing (checker pipeline); registering unused types changes nothing",
 		"observed on the unchanged tree and not fixed: `@a |` makes collect index an empty string (recovered by the API into a generic error)",
 	},
+	"C06": {
+		"which links count as mandatory (optional, nullable and array links skipped; a choice fails only if every alternative fails): the walk itself goes through the Node interface family, treated as arbitrary",
+		"that every mandatory link is followed with the right type table: observed defect F17 (the type's own table replaces the root's when descending, nested cycles go unreported) - its repair breaks TestSchema_Example, so it is neither fixed nor claimed",
+		"no false recursion alarms; Example() terminates and returns finite JSON for every schema that passes",
+	},
 	"C07": {
 		"that the compiled object has exactly own ++ inherited properties, marked with their origin and keeping required/optional: the merge loop runs through the Node interface family, treated as arbitrary here",
 		"duplicate property names, inheritance from a non-object or missing type, cyclic inheritance (processType's in-progress / compiled sets)",
